@@ -127,6 +127,37 @@ func c06One(env *Env, m *wvlib.Model, c *C06Case) {
 				}
 			}
 		}
+	case "dirloop":
+		// a directory (with everything below it) replaced by a symlink that leads back to itself: every path below
+		// it fails to resolve with ELOOP
+		dmg = b.Clone()
+		var dirs []string
+		for _, e := range dmg.Entries {
+			if e.Kind == 'd' {
+				dirs = append(dirs, e.Path)
+			}
+		}
+		if len(dirs) == 0 {
+			return
+		}
+		p := dirs[r.Intn(len(dirs))]
+		var keep []wvlib.BEntry
+		for _, e := range dmg.Entries {
+			if e.Path != p && !strings.HasPrefix(e.Path, p+"/") {
+				keep = append(keep, e)
+			}
+		}
+		bn := p
+		if i := strings.LastIndex(p, "/"); i >= 0 {
+			bn = p[i+1:]
+		}
+		if r.Bool() {
+			keep = append(keep, wvlib.BEntry{Path: p, Kind: 'l', Dest: bn})
+		} else {
+			keep = append(keep, wvlib.BEntry{Path: p, Kind: 'l', Dest: bn + ".loop"}, wvlib.BEntry{Path: p + ".loop", Kind: 'l', Dest: bn})
+		}
+		dmg.Entries = keep
+		c.Damage = []string{"dir->symlink-loop " + p}
 	default:
 		dmg, c.Damage = wvlib.Damage(r, b, c.Dmg)
 	}
@@ -166,6 +197,8 @@ func c06One(env *Env, m *wvlib.Model, c *C06Case) {
 	for _, d := range c.Damage {
 		if strings.HasPrefix(d, "dir->symlink-to-moved-copy") {
 			dmgClass = "dir->symlink-to-moved-copy"
+		} else if strings.HasPrefix(d, "dir->symlink-loop") {
+			dmgClass = "dir->symlink-loop"
 		} else if strings.HasPrefix(d, "dir->file") && dmgClass == "other" {
 			dmgClass = "dir->file"
 		}
@@ -268,6 +301,8 @@ func runC06(env *Env) {
 			c.Shape = "missing"
 		case 3, 11:
 			c.Shape = "dirsymlink"
+		case 7:
+			c.Shape = "dirloop"
 		}
 		cases[i] = c
 	}
